@@ -4,7 +4,7 @@
    regression examples of the repaired behaviour for the two fixed ones (C11-JOIN-FILL-ZERO-VARIANCE
    a9c876f, C11-UCP-NEGATIVE-COVARIANCE 859061b). *)
 From Coq Require Import List Bool PArith Arith Lia Reals Lra.
-From PV Require Import Base.PyData Base.Expr C11.Model C11.NumModel C11.NumProofs.
+From PV Require Import Base.PyData Base.Expr C11.Model C11.NumModel C11.NumProofs C11.JdModel.
 Import ListNotations.
 
 (* entries: natural numbers, 0 is zero, parameters are numbers >= 20 *)
@@ -52,6 +52,26 @@ Theorem unjoin_order_refuted :
 Proof.
   exists uo_coll, [vc]. repeat split; try (vm_compute; reflexivity).
   vm_compute. intro H. discriminate.
+Qed.
+
+(* ---- create_joint_distribution(model, ['S1', 'CL', 'VC']) on etas stored as CL, VC, S1 ----------------
+   param_names is built in ARGUMENT order but indexed by the position in the joined block: the covariance
+   of CL and VC gets the name made of the parameter names of S1 and CL (finding C11-CJD-COV-PARAM-MISNAMED) *)
+Definition cjd_coll : scoll :=
+  [Normal va L_IIV None (Some 21%positive); Normal vb L_IIV None (Some 22%positive); Normal vc L_IIV None (Some 23%positive)].
+(* parameter names: a -> 1, b -> 2, c -> 3; requested order c, a, b *)
+Theorem cjd_cov_names_refuted :
+  exists (r r' : scoll) inds pn (p p' : list (id * nat)) x y,
+    wf sym r = true /\
+    create_joint_distribution nat 0 Nat.mul (fun n => n) (fun n => n) 1 (fun _ _ => None) inds pn p r = Ok (r', p') /\
+    inds <> filter (fun n => memp n inds) (names r) /\
+    index_of x inds = Some 1 /\ index_of y inds = Some 2 /\ nth 1 pn 1%positive = 1%positive /\ nth 2 pn 1%positive = 2%positive /\
+    cov sym None r' x y <> Some (sym_mk_cov 1%positive 2%positive) /\ cov sym None r' x y <> Some (sym_mk_cov 2%positive 1%positive).
+Proof.
+  exists cjd_coll. eexists. exists [vc; va; vb], [3%positive; 1%positive; 2%positive], [(21%positive, 4); (22%positive, 9); (23%positive, 16)].
+  eexists. exists va, vb.
+  split; [vm_compute; reflexivity|]. split; [vm_compute; reflexivity|].
+  repeat split; try (vm_compute; reflexivity); vm_compute; intro H; discriminate.
 Qed.
 
 (* ---- regression (finding C11-UCP-NEGATIVE-COVARIANCE, fixed in 859061b) -----------------------------
